@@ -500,6 +500,8 @@ class Server(BaseComponent):
 
         self._closeq = []
         self._clients = []
+        # connections whose write side failed for good (see _write)
+        self._broken = set()
         self._poller = None
         self._buffers = defaultdict(deque)
 
@@ -593,6 +595,8 @@ class Server(BaseComponent):
         if sock in self._closeq:
             self._closeq.remove(sock)
 
+        self._broken.discard(sock)
+
         if sock in self._clients:
             self._clients.remove(sock)
         else:
@@ -671,8 +675,11 @@ class Server(BaseComponent):
                 self.fire(error(sock, e))
                 # the peer takes no more output, but what it sent before it
                 # went away has still to be delivered: give up the write side
-                # only and let the read side end the connection (EOF / error)
+                # only and let the read side end the connection (EOF / error).
+                # Nothing may follow the lost payload on this connection
+                # (see write())
                 self._buffers[sock].clear()
+                self._broken.add(sock)
             else:
                 self._buffers[sock].appendleft(data)
 
@@ -680,6 +687,10 @@ class Server(BaseComponent):
     def write(self, sock, data):
         if sock not in self._clients:
             # late write to a connection that is gone: keep no state for it
+            return
+        if sock in self._broken:
+            # a payload was lost to a send error (and reported): what the
+            # peer gets must stay a prefix of what was written
             return
         if not self._poller.isWriting(sock):
             self._poller.addWriter(self, sock)
